@@ -162,6 +162,22 @@ func (d *Driver) Run() int {
 	repoRoot = d.Repo
 	loader := NewLoader()
 	var jobs []*job
+	// a property check always covers every package in which the inventory lists obligations of the property
+	// (the targets argument can only widen that), so a contract added in another package is never skipped
+	if d.Prop != "" && d.OnlyFunc == "" {
+		if b, err := os.ReadFile(filepath.Join(d.Verif, "obligations.json")); err == nil {
+			var inv map[string][]string
+			if json.Unmarshal(b, &inv) == nil {
+				for _, n := range inv[d.Prop] {
+					for pre, tg := range map[string]string{"rt:": "rt", "ast:": "ast", "builder:": "builder", "main:": "main", "bounded:": "builder", "inst[": "rt", "classes:": "rt", "lemma:": "rt"} {
+						if strings.HasPrefix(n, pre) && !strings.Contains(","+d.Targets+",", ","+tg+",") {
+							d.Targets += "," + tg
+						}
+					}
+				}
+			}
+		}
+	}
 	for _, tg := range strings.Split(d.Targets, ",") {
 		switch tg {
 		case "rt":
